@@ -76,6 +76,9 @@ Model/MonC08.vos Model/MonC08.vok Model/MonC08.required_vos: Model/MonC08.v Mode
 Model/MonC03.vo Model/MonC03.glob Model/MonC03.v.beautified Model/MonC03.required_vo: Model/MonC03.v Model/Mon.vo
 Model/MonC03.vio: Model/MonC03.v Model/Mon.vio
 Model/MonC03.vos Model/MonC03.vok Model/MonC03.required_vos: Model/MonC03.v Model/Mon.vos
+Model/MonC05h.vo Model/MonC05h.glob Model/MonC05h.v.beautified Model/MonC05h.required_vo: Model/MonC05h.v Model/MonC05.vo Model/MonC03.vo
+Model/MonC05h.vio: Model/MonC05h.v Model/MonC05.vio Model/MonC03.vio
+Model/MonC05h.vos Model/MonC05h.vok Model/MonC05h.required_vos: Model/MonC05h.v Model/MonC05.vos Model/MonC03.vos
 Model/MonC14.vo Model/MonC14.glob Model/MonC14.v.beautified Model/MonC14.required_vo: Model/MonC14.v Model/Mon.vo
 Model/MonC14.vio: Model/MonC14.v Model/Mon.vio
 Model/MonC14.vos Model/MonC14.vok Model/MonC14.required_vos: Model/MonC14.v Model/Mon.vos
@@ -145,6 +148,12 @@ Proofs/Hist.vos Proofs/Hist.vok Proofs/Hist.required_vos: Proofs/Hist.v Model/Mo
 Proofs/PT03.vo Proofs/PT03.glob Proofs/PT03.v.beautified Proofs/PT03.required_vo: Proofs/PT03.v Model/Mon.vo Model/MonC03.vo Proofs/Framework.vo Proofs/StoreLocks.vo Proofs/StorePromises.vo Proofs/StoreCallbacks.vo Proofs/Discipline.vo Proofs/SysInv.vo Proofs/Eqb.vo Proofs/PC03.vo Proofs/Hist.vo
 Proofs/PT03.vio: Proofs/PT03.v Model/Mon.vio Model/MonC03.vio Proofs/Framework.vio Proofs/StoreLocks.vio Proofs/StorePromises.vio Proofs/StoreCallbacks.vio Proofs/Discipline.vio Proofs/SysInv.vio Proofs/Eqb.vio Proofs/PC03.vio Proofs/Hist.vio
 Proofs/PT03.vos Proofs/PT03.vok Proofs/PT03.required_vos: Proofs/PT03.v Model/Mon.vos Model/MonC03.vos Proofs/Framework.vos Proofs/StoreLocks.vos Proofs/StorePromises.vos Proofs/StoreCallbacks.vos Proofs/Discipline.vos Proofs/SysInv.vos Proofs/Eqb.vos Proofs/PC03.vos Proofs/Hist.vos
+Proofs/Batch.vo Proofs/Batch.glob Proofs/Batch.v.beautified Proofs/Batch.required_vo: Proofs/Batch.v Model/Mon.vo Proofs/StoreLocks.vo Proofs/StorePromises.vo Proofs/StoreCallbacks.vo Proofs/Discipline.vo Proofs/SysInv.vo
+Proofs/Batch.vio: Proofs/Batch.v Model/Mon.vio Proofs/StoreLocks.vio Proofs/StorePromises.vio Proofs/StoreCallbacks.vio Proofs/Discipline.vio Proofs/SysInv.vio
+Proofs/Batch.vos Proofs/Batch.vok Proofs/Batch.required_vos: Proofs/Batch.v Model/Mon.vos Proofs/StoreLocks.vos Proofs/StorePromises.vos Proofs/StoreCallbacks.vos Proofs/Discipline.vos Proofs/SysInv.vos
+Proofs/PT05.vo Proofs/PT05.glob Proofs/PT05.v.beautified Proofs/PT05.required_vo: Proofs/PT05.v Model/Mon.vo Model/MonC05.vo Model/MonC03.vo Model/MonC05h.vo Proofs/Framework.vo Proofs/StoreLocks.vo Proofs/StorePromises.vo Proofs/StoreCallbacks.vo Proofs/Discipline.vo Proofs/SysInv.vo Proofs/Eqb.vo Proofs/PC03.vo Proofs/PC05.vo Proofs/Hist.vo Proofs/PT03.vo Proofs/Batch.vo
+Proofs/PT05.vio: Proofs/PT05.v Model/Mon.vio Model/MonC05.vio Model/MonC03.vio Model/MonC05h.vio Proofs/Framework.vio Proofs/StoreLocks.vio Proofs/StorePromises.vio Proofs/StoreCallbacks.vio Proofs/Discipline.vio Proofs/SysInv.vio Proofs/Eqb.vio Proofs/PC03.vio Proofs/PC05.vio Proofs/Hist.vio Proofs/PT03.vio Proofs/Batch.vio
+Proofs/PT05.vos Proofs/PT05.vok Proofs/PT05.required_vos: Proofs/PT05.v Model/Mon.vos Model/MonC05.vos Model/MonC03.vos Model/MonC05h.vos Proofs/Framework.vos Proofs/StoreLocks.vos Proofs/StorePromises.vos Proofs/StoreCallbacks.vos Proofs/Discipline.vos Proofs/SysInv.vos Proofs/Eqb.vos Proofs/PC03.vos Proofs/PC05.vos Proofs/Hist.vos Proofs/PT03.vos Proofs/Batch.vos
 Proofs/PC14.vo Proofs/PC14.glob Proofs/PC14.v.beautified Proofs/PC14.required_vo: Proofs/PC14.v Model/Mon.vo Proofs/Eqb.vo Proofs/StorePromises.vo
 Proofs/PC14.vio: Proofs/PC14.v Model/Mon.vio Proofs/Eqb.vio Proofs/StorePromises.vio
 Proofs/PC14.vos Proofs/PC14.vok Proofs/PC14.required_vos: Proofs/PC14.v Model/Mon.vos Proofs/Eqb.vos Proofs/StorePromises.vos
@@ -181,9 +190,9 @@ Props/C01.vos Props/C01.vok Props/C01.required_vos: Props/C01.v Model/Mon.vos Mo
 Props/C16.vo Props/C16.glob Props/C16.v.beautified Props/C16.required_vo: Props/C16.v Model/Mon.vo Proofs/StoreLocks.vo Proofs/StorePromises.vo Proofs/PC16.vo Gen/Sql.vo Spec/SqlRef.vo
 Props/C16.vio: Props/C16.v Model/Mon.vio Proofs/StoreLocks.vio Proofs/StorePromises.vio Proofs/PC16.vio Gen/Sql.vio Spec/SqlRef.vio
 Props/C16.vos Props/C16.vok Props/C16.required_vos: Props/C16.v Model/Mon.vos Proofs/StoreLocks.vos Proofs/StorePromises.vos Proofs/PC16.vos Gen/Sql.vos Spec/SqlRef.vos
-Props/C05.vo Props/C05.glob Props/C05.v.beautified Props/C05.required_vo: Props/C05.v Model/Mon.vo Model/MonC05.vo Proofs/StoreLocks.vo Proofs/StorePromises.vo Proofs/StoreCallbacks.vo Proofs/Discipline.vo Proofs/SysInv.vo Proofs/PC05.vo
-Props/C05.vio: Props/C05.v Model/Mon.vio Model/MonC05.vio Proofs/StoreLocks.vio Proofs/StorePromises.vio Proofs/StoreCallbacks.vio Proofs/Discipline.vio Proofs/SysInv.vio Proofs/PC05.vio
-Props/C05.vos Props/C05.vok Props/C05.required_vos: Props/C05.v Model/Mon.vos Model/MonC05.vos Proofs/StoreLocks.vos Proofs/StorePromises.vos Proofs/StoreCallbacks.vos Proofs/Discipline.vos Proofs/SysInv.vos Proofs/PC05.vos
+Props/C05.vo Props/C05.glob Props/C05.v.beautified Props/C05.required_vo: Props/C05.v Model/Mon.vo Model/MonC05.vo Model/MonC03.vo Model/MonC05h.vo Proofs/StoreLocks.vo Proofs/StorePromises.vo Proofs/StoreCallbacks.vo Proofs/Discipline.vo Proofs/SysInv.vo Proofs/PC05.vo Proofs/PT05.vo
+Props/C05.vio: Props/C05.v Model/Mon.vio Model/MonC05.vio Model/MonC03.vio Model/MonC05h.vio Proofs/StoreLocks.vio Proofs/StorePromises.vio Proofs/StoreCallbacks.vio Proofs/Discipline.vio Proofs/SysInv.vio Proofs/PC05.vio Proofs/PT05.vio
+Props/C05.vos Props/C05.vok Props/C05.required_vos: Props/C05.v Model/Mon.vos Model/MonC05.vos Model/MonC03.vos Model/MonC05h.vos Proofs/StoreLocks.vos Proofs/StorePromises.vos Proofs/StoreCallbacks.vos Proofs/Discipline.vos Proofs/SysInv.vos Proofs/PC05.vos Proofs/PT05.vos
 Props/C04.vo Props/C04.glob Props/C04.v.beautified Props/C04.required_vo: Props/C04.v Model/Mon.vo Model/MonC04.vo Proofs/StoreLocks.vo Proofs/StorePromises.vo Proofs/Discipline.vo Proofs/SysInv.vo Proofs/PC04.vo
 Props/C04.vio: Props/C04.v Model/Mon.vio Model/MonC04.vio Proofs/StoreLocks.vio Proofs/StorePromises.vio Proofs/Discipline.vio Proofs/SysInv.vio Proofs/PC04.vio
 Props/C04.vos Props/C04.vok Props/C04.required_vos: Props/C04.v Model/Mon.vos Model/MonC04.vos Proofs/StoreLocks.vos Proofs/StorePromises.vos Proofs/Discipline.vos Proofs/SysInv.vos Proofs/PC04.vos
